@@ -277,7 +277,16 @@ def exec (st : State) (toks : List String) : State × List String :=
         if d.applied.isEmpty && d.queue.isEmpty then
           match loadDoc st .ignore data with
           | some (.ok d') => (setReplica st r d', [s!"ok {summary d' (isoOf st r)}"])
-          | some (.error _) => (st, [s!"err {summary d (isoOf st r)}"])
+          | some (.error _) =>
+            -- the data is a concatenation of valid change chunks: the error is the one `apply_changes` gives
+            let l := Chunk.loadChunks (fun _ _ => true) (data.length + 1) data []
+            let rs := match l.chunks.mapM (chunkChanges st) with
+              | some css =>
+                (match (applyBatch Doc.empty css.flatten).2 with
+                 | .error (.duplicateSeq s a) => s!"err dupseq {s} {hexOfBytes a}"
+                 | .ok _ => "err")
+              | none => "err"
+            (st, [s!"{rs} {summary d (isoOf st r)}"])
           | none => (st, ["unknown-chunk"])
         else
           let l := Chunk.loadChunks (fun _ _ => true) (data.length + 1) data []
